@@ -129,6 +129,9 @@ fn cfg_of(case: &Case, t: &mut Tape) -> Cfg {
         coeff: [44u64, 0, 1000][t.pick(3)],
         constant: [155_381u64, 0][t.pick(2)],
         extra_fees: [None, Some(0)][t.pick(2)],
+        // which cost models the protocol parameters carry: usually all three, one time in four any subset
+        // (a missing model for the language in use is a refusal, never a payload without script data hash)
+        cost_models: if t.chance(3, 4) { 7 } else { t.pick(8) as u8 },
         ..Cfg::default()
     }
 }
@@ -136,7 +139,20 @@ fn cfg_of(case: &Case, t: &mut Tape) -> Cfg {
 pub fn check_case(tape: &[u16], rc: &mut RCase) -> Result<(), Failure> {
     let mut t = Tape::new(tape);
     let case = gen_case(&mut t);
-    let cfg = cfg_of(&case, &mut t);
+    judge_case(case, &mut t, rc)
+}
+
+/// the data-heavy family: the generator of C09 (one variant type of up to 140 cases, integers over the
+/// whole range, nested data) - every payload must still be a transaction a standard decoder accepts
+pub fn check_data_case(tape: &[u16], rc: &mut RCase) -> Result<(), Failure> {
+    let mut t = Tape::new(tape);
+    let case = super::c09::gen_case(&mut t);
+    rc.label("family:wide_variant_data");
+    judge_case(case, &mut t, rc)
+}
+
+fn judge_case(case: Case, t: &mut Tape, rc: &mut RCase) -> Result<(), Failure> {
+    let cfg = cfg_of(&case, t);
     let ev = evaluate(&case, &cfg);
     let rendered = || case_json(&case, &print_plain(&case.prog));
     let key = hash64(&(ev.source.as_str(), format!("{:?}{:?}", case.args, case.inputs)));
@@ -297,7 +313,7 @@ pub fn run(tier: Tier, seed: u64) -> Report {
     let mut r = Report::new("C10", tier, seed);
     r.rule = "every Ok payload of generated templates (metadata, redeemers, plutus/native witness directives, withdrawals, \
               donation on/off; mint+burn that cancel exactly; optional outputs evaluating to zero; duplicate signers / \
-              references in the source; input* with several UTxOs) x pparams x network. Oracle: pallas decodes it; reported \
+              references in the source; input* with several UTxOs) x pparams (cost models: all three or any subset) x network, plus the data-heavy family of C09 (variant types of up to 140 cases, integers of any size). Oracle: pallas decodes it; reported \
               hash = Blake2b-256 of the body byte span; aux hash / script data hash present iff metadata / redeemers are \
               and equal to independently computed digests; no duplicate, empty or zero entries; network id; two more \
               in-process compilations and a compilation in a fresh child process give the same bytes. distinct = \
@@ -309,6 +325,7 @@ pub fn run(tier: Tier, seed: u64) -> Report {
     ];
     let n = tier.pick(30_000u64, 800_000u64);
     r.explore("well_formedness", n, 1000, &|t, rc| check_case(t, rc));
+    r.explore("well_formedness_data_heavy", tier.pick(6_000u64, 200_000u64), 700, &|t, rc| check_data_case(t, rc));
     // cross-process determinism: the child regenerates the case from the tape and compiles it
     if !r.failed() {
         use proptest::strategy::{Strategy, ValueTree};
@@ -366,6 +383,10 @@ pub fn run(tier: Tier, seed: u64) -> Report {
 pub fn replay(phase: &str, tape: &[u16], seed: u64) -> Report {
     let mut r = Report::new("C10", Tier::Quick, seed);
     r.strict = true;
+    if phase == "well_formedness_data_heavy" {
+        r.explore_list(phase, &[tape.to_vec()], &|t, rc| check_data_case(t, rc));
+        return r;
+    }
     r.explore_list(phase, &[tape.to_vec()], &|t, rc| check_case(t, rc));
     if !r.failed() {
         // cross-process part of the oracle
